@@ -28,8 +28,19 @@ PID = "C01"
 ENGINES = ["txbal"]
 
 
+MAX_FEE = 1000     # TxBalance!MaxFee: stand-in of FeeFields::FEE_MASK, the largest fee of a single kernel
+
+
+def total_fee(case):
+    return sum(k["fee"] for k in case["body"]["kerns"] if k["kind"] != "cb")
+
+
 def signature(case):
     ctx, exp = case["ctx"], case["expect"]
+    if ctx["as"] == "block" and case["applied"] == ["fees_paid_to_plain_output"] and exp["rule"] == "verify_coinbase":
+        # the coinbase claims the bare subsidy, a plain output collects the fees
+        return "txbal:block:accepted:fees_not_claimed_by_coinbase:total_fee_%s_single_kernel_limit" % (
+            "over" if total_fee(case) > MAX_FEE else "within")
     if ctx["as"] == "block" and ctx["total"] == 0 and ctx["prev"] != 0 and exp["rule"] == "kernel_sums":
         # the block's own offset (total - prev) was not applied
         return "txbal:block:accepted:total_offset_zero_prev_nonzero"
@@ -121,6 +132,15 @@ def run(tier, replay):
     model["named"] = {"config": "mc/MC_TxBalance_named", "states": rn.distinct, "wall_s": round(rn.wall, 1),
                       "actions": {k: v[0] for k, v in acts.items()}}
 
+    # the fee-magnitude cases are sensitive: a verify_coinbase that reads the total fee through FeeFields
+    # (refused above the single-kernel limit, taken as 0) must be told from the rule set by the model itself
+    if not dev_skip:
+        rp = vlib.tlc("mc/MC_TxBalance", "mc/MC_TxBalance_feeprobe", workers=2, coverage=False, timeout=900)
+        if "AllChecks" not in rp.invariant_violated:
+            print(rp.out[-3000:])
+            raise ToolError("MC_TxBalance_feeprobe: the careless total-fee reading was not told from the rules")
+        model["feeprobe"] = {"config": "mc/MC_TxBalance_feeprobe", "violated_as_required": True, "wall_s": round(rp.wall, 1)}
+
     # (A) spec-generated bodies against the real validate
     cases = emit_cases(10 if thorough else 2, 3 if thorough else 1)
     if len(cases) < 500:
@@ -155,6 +175,16 @@ def run(tier, replay):
                 counts["spec_invalid_real_refused"] += 1
         if len(c["applied"]) == 2 and exp["valid"]:
             counts["compensating_pairs_valid"] += 1
+        if c["grp"].get("big"):
+            counts["fee_magnitude_cases"] += 1
+            nmax = sum(1 for k in c["body"]["kerns"] if k["fee"] == MAX_FEE)
+            if total_fee(c) > MAX_FEE:
+                key = "%s_total_fee_over_single_kernel_limit" % c["ctx"]["as"]
+                counts[key] += 1
+                if not c["applied"] and r["res"] == "ok":
+                    counts[key + "_honest_accepted:kernels_at_max=%d" % nmax] += 1
+                if c["applied"] == ["fees_paid_to_plain_output"] and r["res"] != "ok":
+                    counts["block_fees_to_plain_output_refused:kernels_at_max=%d" % nmax] += 1
         if verdict == "violation":
             rep.violation(signature(c), c, text)
         elif verdict == "converse":
@@ -210,6 +240,16 @@ def run(tier, replay):
         flipped["expect"]["rule"] = "selftest"
         if judge(flipped, res[probe["id"]])[0] != "violation":
             raise ToolError("selftest: flipped expectation not flagged")
+    # the fee-magnitude dimension was exercised where it matters: totals above the single-kernel limit
+    if not rep.violations and not converse:
+        for key in ("block_total_fee_over_single_kernel_limit_honest_accepted:kernels_at_max=2",
+                    "block_total_fee_over_single_kernel_limit_honest_accepted:kernels_at_max=3",
+                    "tx_total_fee_over_single_kernel_limit_honest_accepted:kernels_at_max=2",
+                    "tx_total_fee_over_single_kernel_limit_honest_accepted:kernels_at_max=3",
+                    "block_fees_to_plain_output_refused:kernels_at_max=2",
+                    "block_fees_to_plain_output_refused:kernels_at_max=3"):
+            if counts[key] == 0:
+                raise ToolError("fee-magnitude section vacuous: %s = 0" % key)
     # every corruption class and every rule of the transcription was exercised
     import re
     spec = open(os.path.join(vlib.SPEC, "TxBalance.tla")).read()
@@ -250,7 +290,10 @@ def run(tier, replay):
     rep.assumptions = [
         "secp256k1-zkp primitives (Pedersen commitments, bulletproofs, aggsig) are used as primitives: H and G independent, "
         "a proof/signature made for another commitment/message never verifies",
-        "model scalars are small integers; amounts are multiples of 15 grin below 2^31 units",
+        "model scalars are small integers; amounts are written in three digits a + 1000*b + 1000000*c standing for "
+        "a*15 grin + b*(2^40-1) nanogrin + c nanogrin (digits <= 99, so sums are digit-wise); fees per kernel from "
+        "{1 nanogrin, 15 grin, 2^40-1 nanogrin}; u64 overflow of a fee total is out of reach (a block holds at most "
+        "40000/3 kernels of at most 2^40-1 nanogrin: < 2^54)",
         "blinding factors of generated bases follow cyclic patterns (stratified sample of r in 1..3); values, fees, offsets, "
         "kernel kinds and corruption positions are exhaustive within the stated bounds",
         "weight rule transcribed but never binding within the bounds (<= 96 weight units)",
